@@ -202,7 +202,10 @@ class C17(core.Check):
     CTS_BAD = ['a/b/c', 'application/a+b+xml']
     MIMES = [None, None, None, ['text/*'], ['application/*+xml'], ['text/*', 'application/*+xml', 'image/png'],
              ['*/*'], ['text/html', 'application/json'], ['text/*+xml'], ['image/*+xml', 'application/*'],
-             [], ['bad', 'text/plain'], ['application/*+json', 'text/css']]
+             [], ['bad', 'text/plain'], ['application/*+json', 'text/css'],
+             # exact entries that carry a structured-syntax suffix match only themselves
+             ['text/html', 'application/xhtml+xml'], ['image/svg+xml'], ['application/atom+xml', 'text/plain'],
+             ['application/x+xml', 'application/ld+json']]
     MIMES_BAD = [['a/b/c', 'text/*'], ['application/x+y+xml'], ['text/x/y']]
 
     def gen_bytes(self, rng, n):
@@ -257,6 +260,17 @@ class C17(core.Check):
                 c['shape'], c['chunks'] = 'list', [b'data', b'']
             if c['ae'] is None:
                 c['ae'] = [{'v': 'gzip', 'q': None, 'ws': 0}]
+        if focus == 'mime':        # make the media-type eligibility test the interesting part
+            c['mime_types'] = rng.choice([m for m in self.MIMES if m])
+            exact = [m for m in c['mime_types'] if '+' in m and '*' not in m]
+            if exact and rng.random() < .6:
+                # same top-level type and structured-syntax suffix as an exact entry, another subtype: not eligible
+                t, sub = rng.choice(exact).split('/', 1)
+                c['ct'] = '%s/%s+%s' % (t, rng.choice(['atom', 'other', 'x', 'svg']), sub.rsplit('+', 1)[1])
+            c['cached'] = False
+            c['ae'] = [{'v': 'gzip', 'q': None, 'ws': 0}]
+            if not b''.join(c['chunks']) or not c['chunks']:
+                c['shape'], c['chunks'] = 'list', [b'some data ', b'to compress']
         if focus == 'frame':       # make it compress
             c['ct'] = 'text/plain'
             c['mime_types'] = None
@@ -339,6 +353,8 @@ class C17(core.Check):
             out.append(self.gen_charset(rng, focus='find'))
         for _ in range(300 if quick else 6000):
             out.append(self.gen_gzip(rng, focus='frame'))
+        for _ in range(300 if quick else 4000):
+            out.append(self.gen_gzip(rng, focus='mime'))
         if not quick:
             out += list(self.exhaustive())
         for _ in range(6 if quick else 60):
